@@ -129,7 +129,17 @@ def gen_delays():
     write("DelayC", body)
 
 
-SECTIONS = {"ladder": gen_ladder, "refs": gen_refs, "status": gen_status, "delays": gen_delays}
+def gen_txn():
+    from flumine.order.orderpackage import BetfairOrderPackage, BetdaqOrderPackage, OrderPackageType as T
+    body = "From V Require Import Model.Txn.\n"
+    for nm, cls in (("BETFAIR_LIMITS", BetfairOrderPackage), ("BETDAQ_LIMITS", BetdaqOrderPackage)):
+        vals = [cls.order_limit(t) for t in (T.PLACE, T.CANCEL, T.UPDATE, T.REPLACE)]
+        vals = [v if v is not None else 0 for v in vals]
+        body += "Definition %s : limits_of := fun k => match k with KdPlace => %d%%nat | KdCancel => %d%%nat | KdUpdate => %d%%nat | KdReplace => %d%%nat end.\n" % ((nm,) + tuple(vals))
+    write("TxnC", body)
+
+
+SECTIONS = {"txn": gen_txn, "ladder": gen_ladder, "refs": gen_refs, "status": gen_status, "delays": gen_delays}
 
 if __name__ == "__main__":
     which = sys.argv[1:] or sorted(SECTIONS)
